@@ -449,6 +449,7 @@ class Checker:
             self.cm = [[m or [] for m in row] for row in self.cm]
         self.open_classes = {k.get("class") for k in ctx.known_open()}
         self.pending = {}
+        self.seen_classes = {}
         self.evals = 0
         self.refspec = refspec_available()
         self.ref_evals = self.ref_failed = self.ref_diff = 0
@@ -459,12 +460,15 @@ class Checker:
         self.mism_m = 0
         self.mism_s = 0
         self.flag_b = 0
+        self.flag_r = 0
         self.samples = []
 
     def known(self, cls, what, **kw):
         """a reproduced finding: KNOWN-FINDING when merged into known_findings.json, else a pending note"""
+        self.seen_classes[cls] = self.seen_classes.get(cls, 0) + 1
         if cls in self.open_classes:
-            self.ctx.violation(what, known_class=cls, **kw)
+            if self.seen_classes[cls] == 1:
+                self.ctx.violation(what, known_class=cls, **kw)
         else:
             self.pending[cls] = self.pending.get(cls, 0) + 1
 
@@ -492,13 +496,13 @@ class Checker:
         return models, recs
 
     def compare_one(self, prog, m, rec):
-        """-> (ok_m, ok_s, flags)"""
+        """-> (ok_m, ok_s, mech flags, spec flags)"""
         io, il, ir = impl_obs(rec)
         mo, ml, mr, flags = split_model(m["mech"], True)
-        so, sl, sr, _ = split_model(m["spec"], False)
+        so, sl, sr, sflags = split_model(m["spec"], True)
         ok_m = (io, il, ir) == (mo, ml, mr)
         ok_s = lines_match(so, io) and sl == il and lines_match(sr, ir[:len(sr)]) and (len(ir) == 1) == (len(sr) == 1)
-        return ok_m, ok_s, flags
+        return ok_m, ok_s, flags, sflags
 
     def check(self, progs, tag, family):
         ctx = self.ctx
@@ -512,24 +516,27 @@ class Checker:
             if m is None or m["mech"].startswith(("ILL", "FUEL")) or m["spec"].startswith(("ILL", "FUEL")):
                 ctx.broken.append("model evaluation failed / ill-formed generated program: %s -> %s" % (w, m and (m["mech"][:80], m["spec"][:80])))
                 continue
-            ok_m, ok_s, flags = self.compare_one(p, m, rec)
+            ok_m, ok_s, flags, sflags = self.compare_one(p, m, rec)
+            if "b" in flags:
+                self.flag_b += 1
             cyc, dia, clash = graph_features(p)
             if (cyc or dia) and clash:
                 self.nontrivial.add(w)
             if rec.uaf:
                 ctx.violation("use of a reclaimed object while running a module program", input=w, main=m["main"], modules=m["mods"])
+            if "r" in sflags:
+                # the property text does not say what a second import of a module whose body threw must do (S accepts any
+                # ImportError message); the implementation answers "Circular dependency": open known class
+                self.flag_r += 1
+                self.known("failed_import_poisons_module",
+                           "a module whose body threw stays registered with imported = false: a later import reports a cycle",
+                           input=w, main=m["main"], modules=m["mods"], expected=m["spec"], actual=impl_str(rec))
             if not ok_s:
-                if "b" in flags and ok_m:
-                    self.flag_b += 1
-                    self.known("error_classes_not_in_modules",
-                               "a name every script sees at start-up (core.yl error class) is undefined inside an imported module",
-                               input=w, main=m["main"], modules=m["mods"], expected=m["spec"], actual=impl_str(rec))
-                else:
-                    self.mism_s += 1
-                    if len([v for v in ctx.violations if v.get("family")]) < 5:
-                        ctx.violation("module program behaves differently from the Spec (load-once / same object / own globals / ImportError)",
-                                      input=w, main=m["main"], modules=m["mods"], expected=m["spec"], actual=impl_str(rec),
-                                      model=m["mech"], family=family, prog=p)
+                self.mism_s += 1
+                if len([v for v in ctx.violations if v.get("family")]) < 5:
+                    ctx.violation("module program behaves differently from the Spec (load-once / same object / own globals / ImportError)",
+                                  input=w, main=m["main"], modules=m["mods"], expected=m["spec"], actual=impl_str(rec),
+                                  model=m["mech"], family=family, prog=p)
             if not ok_m:
                 self.mism_m += 1
                 if self.mism_m <= 5:
@@ -660,8 +667,8 @@ def shrink(ch, prog, budget=30):
         m = models[0]
         if m is None or m["mech"].startswith(("ILL", "FUEL")) or m["spec"].startswith(("ILL", "FUEL")):
             return False
-        ok_m, ok_s, flags = ch.compare_one(p, m, recs[0])
-        return not ok_s and "b" not in flags
+        ok_m, ok_s, flags, sflags = ch.compare_one(p, m, recs[0])
+        return not ok_s
     cur = [list(m) if m[0] != "ok" else ["ok", list(m[1])] for m in prog]
     changed = True
     while changed and budget > 0:
@@ -752,9 +759,9 @@ def run(ctx):
         "traces_validated_against_impl": ch.evals,
         "programs": ch.evals, "graph_shape_programs": nshapes, "random_programs": len(rnd), "corpus_scripts": ncorpus,
         "impl_vs_model_mismatches": ch.mism_m, "impl_vs_spec_mismatches": ch.mism_s,
-        "main_only_name_cases": ch.flag_b, "harness_cases_retried_after_crash": ch.retried,
+        "main_only_name_cases": ch.flag_b, "reimport_of_failed_module_cases": ch.flag_r, "harness_cases_retried_after_crash": ch.retried,
         "exhaustive": (not quick),
-        "pending_findings": ch.pending,
+        "pending_findings": ch.pending, "known_classes_reproduced": ch.seen_classes,
         "reference_interpreter_compared": ch.ref_evals, "reference_interpreter_disagreements": ch.ref_diff,
         "reference_interpreter_eval_failed": ch.ref_failed,
     })
